@@ -5,11 +5,12 @@ from lib import common as C, scen, clientrun
 THEOREMS = []
 
 SITES = ["shipped_root", "hop_old_keys", "hop_new_keys", "timestamp", "snapshot", "targets", "delegated_1",
-         "delegated_2", "hop_same_key_list"]
+         "delegated_2", "hop_same_key_list", "delegated_second_parent"]
 KINDS = ["valid", "valid_again", "corrupted", "other_content", "other_role_key", "unknown_key",
          "authorised_but_not_in_table", "claims_other_keyid"]
 REJECT = {"shipped_root": [2, 0], "hop_old_keys": [6, 0], "hop_new_keys": [6, 0], "hop_same_key_list": [6, 0], "timestamp": [6, 3],
-          "snapshot": [6, 1], "targets": [6, 2], "delegated_1": [6, 2], "delegated_2": [6, 2]}
+          "snapshot": [6, 1], "targets": [6, 2], "delegated_1": [6, 2], "delegated_2": [6, 2],
+          "delegated_second_parent": [6, 2]}
 
 
 def make_sigs(rng, kinds, auth, missing, other_role_key, unknown_key):
@@ -68,6 +69,19 @@ def build(rng, site, auth, missing, thr, kinds, cs):
         return sorted(({k for ks, _ in r.values() for k in ks} | {other}) - set(missing))
     delegated = []
     metas = {}
+    if site == "delegated_second_parent":
+        # two roles delegate to "leaf": A (visited first) under key 7 / threshold 1, which the document meets;
+        # B under (auth, thr) with the generated signature list. What A's delegation accepts says nothing under B's.
+        leaf = s.targets(version=1, targets=[{"name": "d/x", "content": "x"}], sigs=sigs + [[7, 7, 1]], delegations=None)
+        leaf_role = {"name": "leaf", "keyids": auth, "threshold": thr, "paths": ["d/*"]}
+        b_deleg = {"keys": sorted((set(auth) | {other}) - set(missing)), "roles": [leaf_role]}
+        a_deleg = {"keys": [7], "roles": [{"name": "leaf", "keyids": [7], "threshold": 1, "paths": ["d/*"]}]}
+        ra = s.targets(version=1, targets=[], delegations=a_deleg, sigs=scen.valid([7]))
+        rb = s.targets(version=1, targets=[], delegations=b_deleg, sigs=scen.valid([7]))
+        top_deleg = {"keys": [7], "roles": [{"name": "A", "keyids": [7], "threshold": 1, "paths": ["d/*"]},
+                                            {"name": "B", "keyids": [7], "threshold": 1, "paths": ["d/*"]}]}
+        tgt = s.targets(version=1, targets=[{"name": "file.txt", "content": "hello"}], delegations=top_deleg)
+        delegated = [("A", 1, ra), ("B", 1, rb), ("leaf", 1, leaf)]
     if site in ("delegated_1", "delegated_2"):
         leaf = s.targets(version=1, targets=[{"name": "d/x", "content": "x"}], sigs=sigs, delegations=None)
         leaf_role = {"name": "leaf", "keyids": auth, "threshold": thr, "paths": ["d/*"]}
@@ -113,7 +127,7 @@ def build(rng, site, auth, missing, thr, kinds, cs):
             roles[site] = (auth, thr)
         r = s.root(roles=roles, cs=cs, keys=root_keys(roles))
         roots = []
-    if site not in ("delegated_1", "delegated_2"):
+    if site not in ("delegated_1", "delegated_2", "delegated_second_parent"):
         tgt = s.targets(version=1, targets=[{"name": "file.txt", "content": "hello"}],
                         sigs=sigs if site == "targets" else None)
     metas = {"targets.json": scen.meta(tgt, 1)}
@@ -139,7 +153,7 @@ def gen(chk):
     # corpus: each kind alone and each pair, at every site, n=3 keys, t=2 (one valid signature always present)
     for site in SITES:
         for a in KINDS:
-            out.append((site, [0, 4, 5] if site != "delegated_2" else [4, 5, 6], set(), 1, ["valid", a] if a != "valid" else ["valid"], False))
+            out.append((site, [0, 4, 5] if site not in ("delegated_2", "delegated_second_parent") else [4, 5, 6], set(), 1, ["valid", a] if a != "valid" else ["valid"], False))
             out.append((site, [4, 5, 6], {6} if a == "authorised_but_not_in_table" else set(), 2, ["valid", a], False))
             for b in KINDS:
                 out.append((site, [4, 5, 6], {6} if "authorised_but_not_in_table" in (a, b) else set(), 2,
@@ -158,7 +172,7 @@ def gen(chk):
     for _ in range(n):
         site = rng.choice(SITES)
         nk = rng.randint(1, 4)
-        auth = rng.sample(keypool if rng.random() < 0.35 else [4, 5, 6, 7 if site not in ("hop_old_keys", "hop_new_keys", "delegated_2") else 6], nk) if nk <= 4 else None
+        auth = rng.sample(keypool if rng.random() < 0.35 else [4, 5, 6, 7 if site not in ("hop_old_keys", "hop_new_keys", "delegated_2", "delegated_second_parent") else 6], nk) if nk <= 4 else None
         auth = list(dict.fromkeys(auth))
         missing = set(rng.sample(auth, 1)) if (len(auth) > 1 and rng.random() < 0.3) else set()
         thr = rng.randint(1, 4)
@@ -175,7 +189,8 @@ def gen(chk):
 
 def run(chk):
     chk.rule = ("verification sites (shipped root, hop under old keys, hop under new keys, timestamp, snapshot, "
-                "targets, delegated role at depth 1 and 2) x key sets of 1-4 keys (Ed25519, ECDSA, RSA) x "
+                "targets, delegated role at depth 1 and 2, delegated role under its second delegating role after the first "
+                "one - with other keys - accepted it) x key sets of 1-4 keys (Ed25519, ECDSA, RSA) x "
                 "thresholds 1-4 x signature lists of length <=5 over {valid, second valid by same key, corrupted, "
                 "over other content, key of another role, unknown key, authorised but absent from the key table, "
                 "claims another key's id}; non-trivial = list contains a kind other than plain valid; distinct by "
